@@ -17,7 +17,8 @@ claim("C10", UNB + "Budget.consume/remaining/__init__ verified against the WINDO
 claim("C17", "Lock-ownership discipline proved on every path of every method of Budget and CircuitBreaker (guarded access only "
       "under the lock, one critical section, no re-acquire, no callback inside) plus a syntactic audit of mutable fields; the "
       "step from the discipline to linearizability is a stated meta-theorem, not a VC.",
-      TB + "Meta-theorem (monitor/Lipton reduction) trusted; the schedule quantifier is not explored; timestamp order vs lock order unchecked.",
+      TB + "Meta-theorem (monitor/Lipton reduction) trusted; the schedule quantifier is not proved - replay/schedules.py explores it boundedly "
+      "(two threads, at most two pre-emptions) to replay a failed discipline obligation; timestamp order vs lock order unchecked.",
       "DESIGN.md C17", "lock-discipline contracts discharged per path + syntactic audit; meta-theorem for interleavings")
 RUN = ("The four retry loops are executed symbolically against one shared inductive loop invariant (any max_attempts), with "
        "_handle_failure (relation HF), the sleep actions (relation SA), emit, elapsed and Budget.consume under contract; HF and SA "
